@@ -24,7 +24,7 @@ theorem mem_foreignInFlight (s : Shared) (a : Nat) (x : Bytes × Bytes) :
 theorem iso_facts {s : Shared} {a : Nat} {ps : PState} {c : Call} {k : Res → Prog Bool}
     (hp : s.parties[a]? = some ps) (hc : ps.prog = .call c k) (h : isoStep s a = true) :
     (∀ i q x, i ≠ a → s.parties[i]? = some q → x ∈ q.inFlight →
-      callSrc (s.view ps) c ≠ some x ∧ callDst (s.view ps) c ≠ some x) ∧
+      callSrc (s.view ps) c ≠ some x ∧ (c.isRename = true → callDst (s.view ps) c ≠ some x)) ∧
     (c.isRename = true → ∀ x ∈ ps.inFlight, callSrc (s.view ps) c ≠ some x) := by
   unfold isoStep at h
   simp only [hp, hc, Bool.and_eq_true, List.all_eq_true, List.mem_append, Option.mem_toList, Bool.not_eq_true',
@@ -33,10 +33,10 @@ theorem iso_facts {s : Shared} {a : Nat} {ps : PState} {c : Call} {k : Res → P
   refine ⟨?_, ?_⟩
   · intro i q x hi hq hx
     have hmem : x ∈ foreignInFlight s a := (mem_foreignInFlight s a x).2 ⟨i, q, hi, hq, hx⟩
-    refine ⟨fun e => ?_, fun e => ?_⟩
+    refine ⟨fun e => ?_, fun hr e => ?_⟩
     · have := h1 x (.inl e)
       simp [List.contains_iff_mem, hmem] at this
-    · have := h1 x (.inr e)
+    · have := h1 x (.inr (by simp [hr, e]))
       simp [List.contains_iff_mem, hmem] at this
   · intro hr x hx e
     rcases h2 with h2 | h2
